@@ -259,9 +259,11 @@ impl SnapCtl {
 }
 
 pub fn run_job(job: Job) -> JobResult {
+    // `root`: the path string the engine sees; `real_root`: where the bytes are (the FS
+    // interposer resolves descriptors through /proc, which yields resolved paths)
     let root = PathBuf::from(&job.root);
     std::fs::create_dir_all(&root).unwrap();
-    let root = root.canonicalize().unwrap();
+    let real_root = root.canonicalize().unwrap();
     let cfg_path = job.cfg.write(&root);
     // CONFIG is a process-global Lazy read from this variable on first use.
     unsafe { std::env::set_var("SNELDB_CONFIG", &cfg_path) };
@@ -271,15 +273,18 @@ pub fn run_job(job: Job) -> JobResult {
     let snapctl = Arc::new(Mutex::new(SnapCtl {
         mode: job.snap,
         dir: PathBuf::from(&job.snap_dir),
-        root: root.clone(),
+        root: real_root.clone(),
         from_op: job.snap_from_op,
         log_enabled: job.fs_log,
-        monitor: if job.fsmon { Some(crate::fsmon::Monitor::new(&root, job.cfg.shards)) } else { None },
+        monitor: if job.fsmon { Some(crate::fsmon::Monitor::new(&real_root, job.cfg.shards)) } else { None },
         ..Default::default()
     }));
     if job.snap != SnapMode::Off || job.fsmon || job.fs_log {
         let sc = snapctl.clone();
-        interpose::fs_watch(root.to_str().unwrap(), Box::new(move |ev| sc.lock().unwrap().on_event(ev)));
+        interpose::fs_watch(real_root.to_str().unwrap(), Box::new(move |ev| sc.lock().unwrap().on_event(ev)));
+        if root != real_root {
+            interpose::fs_alias(root.to_str().unwrap());
+        }
     }
 
     let gatectl = Arc::new(Mutex::new(GateCtl::default()));
